@@ -38,7 +38,7 @@ ASSUMPTIONS = [
     "pinned tree and outside the property's quantifier)",
 ]
 REQUIRED = {"copies": 60, "rechunker_runs": 60, "rechunk_on_load_runs": 40, "per_chunk_merges": 30,
-            "metadata_checks": 100, "source_intact_checks": 100, "rows_compared": 1000}
+            "metadata_checks": 100, "source_intact_checks": 100, "rows_compared": 1000, "dry_loads": 100}
 UNIT_TIMEOUT = 1500
 COMP = ("blosc", "zstd", "lz4", "bz2")
 
@@ -121,6 +121,22 @@ def check_dest(add, spec, d, dt, want, cnt, what):
     else:
         for e in storagemd.metadata_errors(dd, chunks, run_id="0")[:2]:
             add("metadata", f"{what}: {e}")
+        # the context-free reader must agree with the loader (all chunks, and a chunk subset)
+        try:
+            with common.quiet():
+                dry = strax.dry_load_files(dd, disable=True)
+            cnt["dry_loads"] = cnt.get("dry_loads", 0) + 1
+            if not (len(dry) == len(want) and np.asarray(dry).tobytes() == want.tobytes()):
+                add("dry-load", f"{what}: dry_load_files returns {np.asarray(dry).tolist()} != {want.tolist()}")
+            if len(chunks) >= 2:
+                sub = [0, len(chunks) - 1]
+                with common.quiet():
+                    dry2 = strax.dry_load_files(dd, chunk_numbers=sub, disable=True)
+                w2 = np.concatenate([chunks[i].data for i in sub])
+                if not (len(dry2) == len(w2) and np.asarray(dry2).tobytes() == w2.tobytes()):
+                    add("dry-load", f"{what}: dry_load_files(chunk_numbers={sub}) returns {np.asarray(dry2).tolist()} != {w2.tolist()}")
+        except Exception as e:  # noqa: BLE001
+            add("dry-load", f"{what}: dry_load_files failed: {e!r}", e)
 
 
 def run_case(case):
